@@ -8,6 +8,8 @@ prop = sys.argv[1]
 checks = sys.argv[2:] or [prop]
 src = "/tmp/seed/%s.out" % prop
 for k in sorted(os.listdir(src)):
+    if os.environ.get("SEED_ONLY") and k not in os.environ["SEED_ONLY"].split(","):
+        continue
     d = os.path.join(src, k)
     if not (os.path.isdir(d) and os.path.exists(os.path.join(d, "patch.diff"))):
         continue
